@@ -45,11 +45,71 @@ pub enum Caught {
     Panic(String),
 }
 
+// ---- hang watchdog: every guarded region is timed; a region that does not return is reported
+pub struct Slot {
+    pub start_ms: std::sync::atomic::AtomicU64,
+    pub desc: std::sync::Mutex<String>,
+}
+pub static SLOTS: std::sync::OnceLock<Vec<Slot>> = std::sync::OnceLock::new();
+static NEXT_SLOT: std::sync::atomic::AtomicUsize = std::sync::atomic::AtomicUsize::new(0);
+static EPOCH: std::sync::OnceLock<std::time::Instant> = std::sync::OnceLock::new();
+thread_local! {
+    static MY_SLOT: usize = NEXT_SLOT.fetch_add(1, std::sync::atomic::Ordering::Relaxed) % 1024;
+}
+pub fn slots() -> &'static Vec<Slot> {
+    SLOTS.get_or_init(|| (0..1024).map(|_| Slot { start_ms: std::sync::atomic::AtomicU64::new(0), desc: std::sync::Mutex::new(String::new()) }).collect())
+}
+pub fn now_ms() -> u64 {
+    EPOCH.get_or_init(std::time::Instant::now).elapsed().as_millis() as u64 + 1
+}
+/// Describe what the calling thread is about to run (shown if it hangs).
+pub fn watch_desc(d: impl FnOnce() -> String) {
+    let i = MY_SLOT.with(|s| *s);
+    if let Ok(mut g) = slots()[i].desc.lock() {
+        *g = d();
+    }
+}
+/// Starts the watchdog thread: if a guarded region runs longer than `limit_s`, `on_hang(desc)` decides the exit code.
+pub fn start_watchdog(limit_s: u64, prop: String) {
+    let _ = slots();
+    let _ = now_ms();
+    std::thread::spawn(move || loop {
+        std::thread::sleep(std::time::Duration::from_millis(500));
+        let now = now_ms();
+        for s in slots().iter() {
+            let st = s.start_ms.load(std::sync::atomic::Ordering::Relaxed);
+            if st != 0 && now > st + limit_s * 1000 {
+                let desc = s.desc.lock().map(|g| g.clone()).unwrap_or_default();
+                if prop == "C06" && !desc.is_empty() {
+                    // "never blocks indefinitely" is C06's own clause
+                    let dir = format!("{}/replays/C06", crate::report::VERIF);
+                    let _ = std::fs::create_dir_all(&dir);
+                    let file = format!("{dir}/hang_{:x}.json", crate::report::h128(&desc.bytes().map(|b| b as u64).collect::<Vec<_>>()) as u64);
+                    let _ = std::fs::write(&file, format!("{{\"property\": \"C06\", \"key\": \"C06|hang\", \"what\": \"a planner call did not return within {limit_s} s of wall time under the logical clock\", \"replay\": {desc}}}"));
+                    crate::report::out(&format!("  what: a planner call did not return within {limit_s} s (no callback cap was hit: it spins without calling back)"));
+                    crate::report::out(&format!("VIOLATION property=C06 replay={file}"));
+                    std::process::exit(1);
+                }
+                crate::report::out(&format!("ENGINE-ERROR: a guarded region did not return within {limit_s} s: {desc}"));
+                std::process::exit(2);
+            }
+        }
+    });
+}
+
 /// Runs `f`, converting unwinding into a value.
 pub fn guarded<T>(f: impl FnOnce() -> T) -> Result<T, Caught> {
     LAST_PANIC.with(|p| *p.borrow_mut() = None);
     IN_GUARD.with(|g| g.set(g.get() + 1));
+    let slot = MY_SLOT.with(|s| *s);
+    let outer = IN_GUARD.with(|g| g.get()) == 1;
+    if outer {
+        slots()[slot].start_ms.store(now_ms(), std::sync::atomic::Ordering::Relaxed);
+    }
     let r = catch_unwind(AssertUnwindSafe(f));
+    if outer {
+        slots()[slot].start_ms.store(0, std::sync::atomic::Ordering::Relaxed);
+    }
     IN_GUARD.with(|g| g.set(g.get() - 1));
     match r {
         Ok(v) => Ok(v),
